@@ -837,6 +837,65 @@ fn main() {
         orders_family(&mut run, &format!("orders-L{l}"), &subspace, l, &words_sub, permutations(l), false, if thorough && l == 3 { Some(60.0) } else { None });
     }
 
+    // ---------------------------------------------------------------- by-name render sees what the full render sees
+    // "returns exactly the text that block writes during the full render": the same variables are
+    // in reach - the render context AND the instance's global context, in blocks, in what they reach
+    // through super(), and in nested blocks (seeded change C04-9 built the state of a by-name render
+    // without the global context).
+    run.family(
+        Family::new(
+            "render-block-contexts",
+            3,
+            "a three-level chain (nested block, super() at two levels) whose blocks read one variable of the global context, one of the render context and one that is in both: render and render_block / render_block_to of every (template, block) against hand-written texts, under 3 placements of the variables",
+        ),
+        |item, acc: &mut Acc| {
+            let tpls: Vec<(String, String)> = vec![
+                ("base".into(), "{% block a %}<a:{{ g }}:{{ c }}:{{ both }}{% block n %}<n:{{ g }}{{ both }}>{% endblock %}>{% endblock %}".into()),
+                ("child".into(), "{% extends \"base\" %}{% block a %}[{{ super() }}|{{ g }}{{ c }}]{% endblock %}".into()),
+                ("leaf".into(), "{% extends \"child\" %}{% block n %}(n2:{{ g }}{{ c }}{{ super() }}){% endblock %}".into()),
+            ];
+            // (global g, context c, `both` in the global context, `both` in the render context)
+            let (gg, cc, bg, bc): (&str, &str, Option<&str>, Option<&str>) = [("G", "C", Some("bg"), Some("bc")), ("G", "C", Some("bg"), None), ("G", "C", None, Some("bc"))][item as usize];
+            let both = bc.or(bg).unwrap();
+            let mut t = tera::Tera::default();
+            t.global_context().insert("g", gg);
+            if let Some(b) = bg {
+                t.global_context().insert("both", b);
+            }
+            let mut ctx = tera::Context::new();
+            ctx.insert("c", cc);
+            if let Some(b) = bc {
+                ctx.insert("both", b);
+            }
+            let case = || json!({"templates": tpls, "global_context": {"g": gg, "both": bg}, "render_context": {"c": cc, "both": bc}});
+            if !engine::add_templates(&mut t, &tpls).is_ok() {
+                acc.violation("render-block-contexts:refused", "the chain was refused".to_string(), case);
+                return;
+            }
+            let n_base = format!("<n:{gg}{both}>");
+            let a_base = format!("<a:{gg}:{cc}:{both}{n_base}>");
+            let a_child = format!("[{a_base}|{gg}{cc}]");
+            let n_leaf = format!("(n2:{gg}{cc}{n_base})");
+            let a_leaf = format!("[<a:{gg}:{cc}:{both}{n_leaf}>|{gg}{cc}]");
+            let expect: [(&str, &str, &String); 9] = [
+                ("base", "", &a_base), ("base", "a", &a_base), ("base", "n", &n_base),
+                ("child", "", &a_child), ("child", "a", &a_child), ("child", "n", &n_base),
+                ("leaf", "", &a_leaf), ("leaf", "a", &a_leaf), ("leaf", "n", &n_leaf),
+            ];
+            for (tpl, block, want) in expect {
+                let out = if block.is_empty() { engine::render(&t, tpl, &ctx) } else { render_block_both(&t, tpl, block, &ctx) };
+                if out.ok() != Some(want.as_str()) {
+                    acc.violation(
+                        format!("render-block-contexts:{}", if block.is_empty() { "render" } else { "render_block" }),
+                        format!("{}({tpl}{}{block}) gave {}, expected {want:?}", if block.is_empty() { "render" } else { "render_block" }, if block.is_empty() { "" } else { ", " }, out.show()),
+                        case,
+                    );
+                }
+                acc.case(true, out.class());
+            }
+        },
+    );
+
     // ---------------------------------------------------------------- chains completed by re-registration
     {
         let small = inherit::alphabet_small();
